@@ -306,6 +306,49 @@ def report():
             print("NOT CAUGHT %s %s:%d [%s] fn=%s\n    - %s\n    + %s\n    %s" % (r["id"], r["file"], r["line"], r["rule"], r["fn"], r["old"].strip(), r["new"].strip(), r["verdicts"]))
 
 
+def markdown():
+    """seeded/CAMPAIGN.md from the scratch results (triage notes are kept in tools/campaign_triage.json)"""
+    res = [json.loads(l) for l in open(os.path.join(MT, "results.jsonl"))]
+    fl = [json.loads(l) for l in open(os.path.join(MT, "filtered.jsonl"))]
+    tri = {}
+    tp = os.path.join(VERIF, "tools", "campaign_triage.json")
+    if os.path.exists(tp):
+        tri = json.load(open(tp))
+    from collections import Counter
+    st = Counter(r["status"] for r in fl)
+    out = ["# Mechanical mutation campaign (tools/mutcampaign.py)", "",
+           "Small syntactic changes of /repo's non-test source (comparison flips, off-by-one literals, boolean / sign / rounding-mode /",
+           "min-max swaps, `is_zero`->`is_one`, dropped `.neg()`/`.abs()`), sampled per file with a fixed seed. A change *survives* when the crate",
+           "still compiles and its own 861 unit tests and 20 doc tests pass; every survivor was applied to a scratch worktree and the quick checks of",
+           "the properties anchored in the changed file were run against it (a scratch copy of /verif pointed at the worktree through VERIF_REPO;",
+           "nothing is applied to /repo). A run stops at the first check that reports a violation with a concrete replay.", "",
+           "| candidates | did not compile | killed by the crate's tests | test suite hung | survived | survivors checked | caught by a check | not caught |",
+           "|---|---|---|---|---|---|---|---|",
+           "| %d | %d | %d | %d | %d | %d | %d | %d |" % (len(fl), st["killed-compile"], st["killed-tests"] + st["killed-doctests"], st["killed-timeout"], st["survived"],
+                                                          len(res), sum(r["caught"] for r in res), sum(not r["caught"] for r in res)), "",
+           "## Survivors not caught, with triage", "",
+           "Every one was read against the source. `equivalent` = the change cannot alter any observable result; `dead code` = the changed line is not",
+           "reachable from the public API (confirmed by tools/coverage.sh: never executed) or not compiled; `outside the property` = observable only where no",
+           "listed property speaks (e.g. the representation of a zero product, scales outside the quantifier).", "",
+           "| id | place | change | checks run | triage |", "|---|---|---|---|---|"]
+    for r in res:
+        if r["caught"]:
+            continue
+        out.append("| %s | %s:%d `%s` | `%s` -> `%s` | %s | %s |" % (
+            r["id"], r["file"], r["line"], r["fn"], r["old"].strip().replace("|", "\\|")[:70], r["new"].strip().replace("|", "\\|")[:70],
+            " ".join(sorted(r["verdicts"])), tri.get(r["id"], "(not yet triaged)")))
+    out += ["", "## Survivors caught", "", "| id | place | change | caught by |", "|---|---|---|---|"]
+    for r in res:
+        if not r["caught"]:
+            continue
+        by = [p for p, v in r["verdicts"].items() if v.startswith("VIOLATION")]
+        kind = "replay" if any(v == "VIOLATION" for v in r["verdicts"].values()) else "no-failing-input-found"
+        out.append("| %s | %s:%d `%s` | `%s` -> `%s` | %s (%s) |" % (
+            r["id"], r["file"], r["line"], r["fn"], r["old"].strip().replace("|", "\\|")[:60], r["new"].strip().replace("|", "\\|")[:60], " ".join(by), kind))
+    open(os.path.join(VERIF, "seeded", "CAMPAIGN.md"), "w").write("\n".join(out) + "\n")
+    print("wrote seeded/CAMPAIGN.md", len(res))
+
+
 def clean():
     for d in os.listdir(MT) if os.path.isdir(MT) else []:
         p = os.path.join(MT, d)
@@ -325,5 +368,7 @@ if __name__ == "__main__":
         do_check()
     elif cmd == "report":
         report()
+    elif cmd == "markdown":
+        markdown()
     elif cmd == "clean":
         clean()
